@@ -67,11 +67,21 @@ func sameState(a, b []proto.Message) string {
 
 var traitPool = []trait.Name{trait.AirQualitySensor, trait.Light, trait.OnOff, trait.Electric, trait.Metadata, trait.FanSpeed}
 
+// widePool: devices announce up to a dozen or two traits; lists that long are what slices with spare capacity and
+// inserts into the middle need
+var widePool = []trait.Name{trait.Access, trait.AirQualitySensor, trait.AirTemperature, trait.Booking, trait.Channel, trait.Count, trait.Electric, trait.Emergency,
+	trait.FanSpeed, trait.Hail, trait.Light, trait.Metadata, trait.Meter, trait.Mode, trait.OnOff, trait.OpenClose, trait.Parent, trait.Press, trait.Speaker, trait.Vending, trait.Waste}
+
 func drawTraitNames(t *rapid.T, label string) []trait.Name {
 	n := rapid.IntRange(0, 4).Draw(t, label+".n")
+	pool := traitPool
+	if rapid.IntRange(0, 2).Draw(t, label+".wide") == 0 {
+		pool = widePool
+		n = rapid.IntRange(1, 8).Draw(t, label+".nwide")
+	}
 	out := make([]trait.Name, n)
 	for i := range out {
-		out[i] = rapid.SampledFrom(traitPool).Draw(t, label)
+		out[i] = rapid.SampledFrom(pool).Draw(t, label)
 	}
 	return out
 }
